@@ -145,7 +145,7 @@ form("MOV_L_ST_ERN", P, ML, c(0x01), c(0x00), [(0x6980, 0x0077)], group=g)
 form("MOV_L_LD_D16", P, ML, c(0x01), c(0x00), [(0x6f00, 0x0077)], group=g)
 form("MOV_L_ST_D16", P, ML, c(0x01), c(0x00), [(0x6f80, 0x0077)], group=g)
 form("MOV_L_LD_D24", P, ML, c(0x01), c(0x00), [(0x7800, 0x0070), (0x6b20, 0x0007), (0, 0x00ff)], group=g)
-form("MOV_L_ST_D24", P, ML, c(0x01), c(0x00), [(0x7800, 0x0070), (0x6ba0, 0x0007), (0, 0x00ff)], group=g)
+form("MOV_L_ST_D24", P, ML, c(0x01), c(0x00), [(0x7880, 0x0070), (0x6ba0, 0x0007), (0, 0x00ff)], group=g)
 form("MOV_L_LD_INC", P, ML, c(0x01), c(0x00), [(0x6d00, 0x0077)], group=g)
 form("MOV_L_ST_DEC", P, ML, c(0x01), c(0x00), [(0x6d80, 0x0077)], group=g)
 form("MOV_L_LD_A16", P, ML, c(0x01), c(0x00), [(0x6b00, 0x0007)], group=g)
